@@ -302,6 +302,26 @@ def fill_releases(rp, script):
     return sc
 
 
+def keep_valid_releases(rp, script):
+    """drops the releases of a hand-written script that name a task which does not hold resources at that point
+    (decided by a dry run of the real scheduler, iteration by iteration)"""
+    sc = copy.deepcopy(script)
+    holding = set()
+    for k in range(len(sc['iters'])):
+        sc['iters'][k]['unsched'] = [[u for u in m if u in holding] for m in sc['iters'][k]['unsched']]
+        sc['iters'][k]['unsched'] = [m for m in sc['iters'][k]['unsched'] if m]
+        pre = copy.deepcopy(sc); pre['iters'] = pre['iters'][:k + 1]
+        s, out, tasks, crash = run_script(rp, pre)
+        if crash or len(out) <= k:
+            break
+        for m in sc['iters'][k]['unsched']:
+            holding -= set(m)
+        for uid, st in out[k]['events']:
+            if st == 'AGENT_EXECUTING_PENDING':
+                holding.add(uid)
+    return sc
+
+
 def model_op(script):
     return {'op': 'sched', 'cfg': script['cfg'], 'nodes': script['nodes'],
             'iters': [{'incoming': it['incoming'], 'marks': it['marks'], 'envs': it['envs'],
@@ -458,7 +478,8 @@ def monitor(rp, script, out, tasks, crash, props):
                     cfg = script['cfg']
                     if cps > cfg['cpn'] or r['gpr'] > cfg['gpn'] * U or r['lfs'] > cfg['lfs'] or r['mem'] > cfg['mem']:
                         viol.append(('C02', tag + 'oversized-request-granted', 'task %d' % uid))
-            if st == 'FAILED' and 'never be scheduled' in str(o['exc'].get(uid, '')):
+            # (a task failed from the wait pool carries 'bisect failed': the pass found it unplaceable for good)
+            if st == 'FAILED' and ('never be scheduled' in str(o['exc'].get(uid, '')) or 'bisect failed' in str(o['exc'].get(uid, ''))):
                 # tasks with a colocate tag are confined to the tag's nodes (C02): "fits the idle pilot" is
                 # not decided by the idle node map alone, so they are not judged by this clause
                 # ... and with node layouts that differ from node to node (not producible by the resource
